@@ -245,3 +245,12 @@ func init() {
 	addMutant(Mutant{Name: "c10-wrong-schema", Property: "C10", File: "ytypes/node.go",
 		Old: "if err := unmarshalGeneric(cschema, root, val, encoding, opts...); err != nil {", New: "if err := unmarshalGeneric(schema, root, val, encoding, opts...); err != nil {", Expect: "value-write#2:target"})
 }
+
+func init() {
+	addMutant(Mutant{Name: "c18-empty-prefix", Property: "C18", File: "ytypes/leaf.go",
+		Old: "if !ok || len(v) != 1 || v[0] != nil {", New: "if !ok || len(v) < 1 || v[0] != nil {", Expect: "exactly-[null]"})
+	addMutant(Mutant{Name: "c17-lookup-before-unset", Property: "C17", File: "ygot/struct_validation_map.go",
+		Old: "\tif e.Int() == 0 {\n\t\t// Enumerations are always derived int64 types", New: "\tif _, known := enumVal.ΛMap()[e.Type().Name()][e.Int()]; !known && e.Int() == 0 {\n\t\t// Enumerations are always derived int64 types", Expect: "unset-before-lookup"})
+	addMutant(Mutant{Name: "c14-empty-om-keeps-parent", Property: "C14", File: "ygot/struct_validation_map.go",
+		Old: "\t\t\tcase om.Len() == 0:\n\t\t\t\tfVal.Set(reflect.Zero(fType.Type))\n", New: "\t\t\tcase om.Len() == 0:\n\t\t\t\tallChildrenPruned = false\n\t\t\t\tfVal.Set(reflect.Zero(fType.Type))\n", Expect: "keeps-parent"})
+}
